@@ -133,6 +133,7 @@ func Run(ctx context.Context, args []string) int {
 		err = yaml.Unmarshal(bytes, &cfg)
 		if err != nil {
 			cliCtx.Errorf("invalid YAML in configuration file '%s': %v", cfg.Config.Name(), err)
+			return 1
 		}
 	}
 
